@@ -12,6 +12,10 @@ Definition fp_pair (r : fp_res) : option elem * fp_res := (fp_old r, r).
 (* &osm.OSM{Nodes: .., Ways: .., Relations: ..} as the action fields see it: the one element *)
 Definition osm_lit (nodes ways rels : list elem) : option elem := hd_error (nodes ++ ways ++ rels).
 
+(* == on osm.ActionType *)
+Definition atype_eqb (a b : atype) : bool :=
+  match a, b with TCreate, TCreate | TModify, TModify | TDelete, TDelete => true | _, _ => false end.
+
 (* actionType == osm.ActionDelete *)
 Definition atype_is_delete (t : atype) : bool := match t with TDelete => true | _ => false end.
 
